@@ -147,13 +147,33 @@ def judge(case):
         shutil.rmtree(d, ignore_errors=True)
 
 
+MASSES = {"H": 1.008, "C": 12.011, "N": 14.007, "O": 15.999, "S": 32.06}
+
+
+def f17_threshold_tie(m2):
+    """Predicate of known finding F17: an atom of molecule 2 projects onto a principal axis with exactly half (within 1e-4
+    relative) of the largest |projection| on that axis - the library's sign rule sits on its own threshold there."""
+    X = np.asarray(m2["coords"], dtype=float)
+    w = np.array([MASSES[e] for e in m2["elements"]])
+    Y = X - (w[:, None] * X).sum(axis=0) / w.sum()
+    inertia = sum(wi * ((y @ y) * np.eye(3) - np.outer(y, y)) for wi, y in zip(w, Y))
+    _, vec = np.linalg.eigh(inertia)
+    P = np.abs(Y @ vec)
+    largest = P.max()
+    for i in range(3):
+        mx = P[:, i].max()
+        if mx > 1e-4 * largest and (np.abs(P[:, i] / mx - 0.5) < 1e-4).any():
+            return True
+    return False
+
+
 def _shard(arg):
     shard, n_examples, max_frames = arg
     from hypothesis import given, assume, strategies as st
 
     @st.composite
     def molecule2(draw):
-        kind = draw(st.sampled_from(["generic", "generic", "planar_axis", "planar_tilted", "water_like"]))
+        kind = draw(st.sampled_from(["generic", "generic", "planar_axis", "planar_tilted", "water_like", "elongated"]))
         bases = [((0.6, 0.8, 0.0), (0.0, 0.0, 1.0)), ((0.6, 0.0, 0.8), (0.0, 1.0, 0.0)), ((0.36, 0.48, 0.8), (0.8, -0.6, 0.0)),
                  ((1.0, 0.0, 0.0), (0.0, 1.0, 0.0))]
         if kind == "generic":
@@ -161,6 +181,22 @@ def _shard(arg):
             scale = draw(st.sampled_from([(1.0, 1.7, 2.6), (2.4, 1.0, 1.6), (1.5, 2.5, 1.0)]))
             pts = np.array([[draw(st.integers(-2000, 2000)) / 1000 * sc for sc in scale] for _ in range(n)])
             els = [draw(st.sampled_from(ELEMENTS)) for _ in range(n)]
+        elif kind == "elongated":
+            # a chain molecule (cumulene / diyne like): a backbone of heavy atoms exactly on the long principal axis, substituents
+            # at both ends with a much smaller extent across; the backbone atoms have zero projection on the short axes
+            e1, e2 = (np.array(v) for v in draw(st.sampled_from(bases)))
+            e3 = np.cross(e1, e2)
+            m = draw(st.integers(2, 5))
+            w1, w2 = draw(st.integers(5, 10)) / 10, draw(st.integers(5, 10)) / 10
+            lift = draw(st.sampled_from([0.0, 0.0, 0.25, 0.4]))
+            xs = (np.arange(m) - (m - 1) / 2) * 1.3
+            pts = [x * e1 for x in xs]
+            els = [draw(st.sampled_from(["C", "C", "N"])) for _ in range(m)]
+            sub = draw(st.sampled_from(["H", "H", "O", "S"]))
+            pts += [(xs[0] - 0.55) * e1 + w1 * e2 + lift * e3, (xs[0] - 0.55) * e1 - w1 * e2 + lift * e3,
+                    (xs[-1] + 0.55) * e1 + w2 * e2 - lift * e3, (xs[-1] + 0.55) * e1 - w2 * e2 - lift * e3]
+            els += [sub, sub, "H", "H"]
+            pts = np.array(pts)
         elif kind == "water_like":
             # C2v triatomic: exactly planar, the heavy atom sits on a principal axis (the F12 trigger when it is listed last)
             e1, e2 = (np.array(v) for v in draw(st.sampled_from(bases)))
@@ -174,14 +210,18 @@ def _shard(arg):
             pts = np.array([a / 10 * e1 + b / 10 * 1.5 * e2 for a, b in ab])
             els = [draw(st.sampled_from(ELEMENTS)) for _ in range(n)]
         pts = pts + np.array([draw(st.integers(-30, 30)) / 10 for _ in range(3)])
-        pts = np.round(pts, 3)
+        # chain molecules keep 6 decimals (xyz only): their backbone atoms stay on the long axis to ~1e-6 A also when tilted
+        pts = np.round(pts, 6 if kind == "elongated" else 3)
         _, idx = np.unique(pts, axis=0, return_index=True)
         keep = np.sort(idx)
         pts, els = pts[keep], [els[i] for i in keep]
         order = list(draw(st.permutations(range(len(pts)))))
+        if kind == "elongated" and draw(st.booleans()):
+            order = list(range(len(pts)))       # as chemists write them: backbone first, substituents last
         pts, els = pts[order], [els[i] for i in order]
         assume(len(pts) >= 3 and moments_distinct(els, pts))
-        return {"elements": els, "coords": pts.tolist(), "fmt": draw(st.sampled_from(["xyz", "gro"])), "kind": kind}
+        return {"elements": els, "coords": pts.tolist(), "fmt": "xyz" if kind == "elongated" else draw(st.sampled_from(["xyz", "gro"])),
+                "kind": kind}
 
     @st.composite
     def cases(draw):
@@ -225,6 +265,10 @@ def _shard(arg):
                      classes=[f"m2={sc}", f"m2kind={case['m2'].get('kind')}", "placements=grid" if case["placements"] == "grid" else "placements=continuous",
                               f"outliers={case['include_outliers']}", f"cartesian_metric={case['cartesian_grid']}"]
                      + (["more_than_250_rotations"] if case["grid"].get("synthetic_nb") else []))
+            if msgs and known and f17_threshold_tie(case["m2"]):
+                res.known_finding(known[0]["key"], known[0]["what"])
+                res.classes["f17_threshold_tie_molecule_failed"] += 1
+                return
             if msgs:
                 fail(case, "; ".join(msgs))
         return test
@@ -257,7 +301,26 @@ def _long_job(arg):
     return res
 
 
+def _f17_probe(_):
+    """The recorded input of known finding F17, judged on every run: reported as KNOWN-FINDING while it fails."""
+    import json
+    import os
+    res = Result()
+    case = json.load(open(os.path.join(os.path.dirname(os.path.abspath(__file__)), "c11_f17_probe.json")))
+    known = load_known("C11")
+    msgs, info = judge(case)
+    res.case(sample=case, nontrivial=True, key=case, classes=["f17_probe"])
+    if msgs and known and f17_threshold_tie(case["m2"]):
+        res.known_finding(known[0]["key"], known[0]["what"])
+    elif msgs:
+        res.violation(case, "; ".join(msgs))
+    return res
+
+
 def replay(case):
+    if "m2" in case and load_known("C11") and f17_threshold_tie(case["m2"]):
+        return []       # known finding F17 (reported by the run as KNOWN-FINDING), not a new violation
+
     return judge(case)[0]
 
 
@@ -266,6 +329,7 @@ def run(tier):
     jobs = [(s, total // 16, max_frames) for s in range(16)]
     results = pmap(_long_job, [(0, 5347)] if tier == "quick" else [(0, 5347), (1, 10001), (2, 7919)])
     results += pmap(_shard, jobs)
+    results += pmap(_f17_probe, [0])
     res = merge_results(results)
     rule = (f"Hypothesis: grid from 8 rotation grids x 9 direction grids x 7 radial grids (n_t>=2, outer boundary 0.35 .. 7.75 nm), one case in ten with 255..300 rotations (product array built from the package's random-quaternion set); molecule 2 with 3..9 atoms, three "
             f"distinct principal moments (relative gaps >= 5 %), planar or generic, atoms in random order, off-centre, .xyz or .gro; "
